@@ -1002,7 +1002,12 @@ pub fn run_c10(ctx: &mut Ctx) -> Result<(), String> {
         let tail = Duration::from_secs(7) + Duration::from_millis(2600) * max_run.saturating_sub(1);
         let need = if max_run >= 2 { 1 } else { 4 };
         let tail_from = cfg.duration.saturating_sub(tail);
-        for &v in &out.correct {
+        if max_run >= 3 {
+            // three or more consecutive Byzantine leaders can occupy the whole tail: what gets finalized there is
+            // decided by the adversary's blocks (harness code), not by the nodes under test
+            ctx.count("tail-progress-not-judged(3+ consecutive Byzantine leaders)");
+        }
+        for &v in out.correct.iter().filter(|_| max_run < 3) {
             let at_tail_start = out.samples.iter().filter(|(t, _)| *t >= tail_from).filter_map(|(_, m)| m.get(&v)).next().copied().unwrap_or(0);
             let at_end = out.samples.last().and_then(|(_, m)| m.get(&v)).copied().unwrap_or(0);
             if at_end < at_tail_start + need {
